@@ -310,6 +310,55 @@ Section Driver.
     elist (fun x => [efl x]) (h_train h) ++ elist (fun x => [efl x]) (h_vloss h)
     ++ elist (fun x => [efl x]) (h_vacc h).
 
+  (* a script: several calls on ONE network object, each emitting what the stand-alone command emits *)
+  Inductive sop :=
+  | SPredict (x : tensor)
+  | SBackward (x t : tensor)
+  | SLearn (data : list (tensor * tensor)) (val : option (list (tensor * tensor) * Z)) (batch : nat) (epochs : Z)
+  | SValidate (data : list (tensor * tensor)) (tol : T) (pre : bool)
+  | SPredictBatch (xs : list tensor).
+
+  Definition psop : parser sop :=
+    let* k := tok in
+    match k with
+    | 1 => let* x := ptensor in pret (SPredict x)
+    | 3 => let* x := ptensor in let* t := ptensor in pret (SBackward x t)
+    | 4 => let* data := ppairs in
+           let* val := popt (let* v := ppairs in let* th := tok in pret (v, th)) in
+           let* batch := pnat in let* epochs := tok in pret (SLearn data val batch epochs)
+    | 5 => let* data := ppairs in let* tol := pfloat in let* pre := pbool in pret (SValidate data tol pre)
+    | 7 => let* xs := plist ptensor in pret (SPredictBatch xs)
+    | _ => pfail
+    end.
+
+  Fixpoint run_script (n : network NF) (ops : list sop) : res (list Z) :=
+    match ops with
+    | [] => Ok (eweights n ++ eflags n)
+    | SPredict x :: rest =>
+        do y <- predict n x; do o <- run_script n rest; Ok (etensor y ++ o)
+    | SBackward x t :: rest =>
+        do f <- forward n x;
+        do out <- (match last_opt (fw_post f) with Some o => Ok o | None => Panic P_unwrap end);
+        do lg <- loss (fst (n_objective n)) (snd (n_objective n)) out t;
+        do r <- backward n (snd lg) f;
+        do o <- run_script n rest;
+        Ok (efl (fst lg) :: elist egrad (fst (fst r)) ++ elist ebgrad (snd (fst r)) ++ o)
+    | SLearn data val batch epochs :: rest =>
+        let validation := match val with
+                          | Some (v, th) => Some (map fst v, map snd v, th)
+                          | None => None end in
+        do r <- learn seq_pmap n (map fst data) (map snd data) validation batch epochs;
+        do o <- run_script (fst r) rest;
+        Ok (ehist (snd r) ++ eweights (fst r) ++ eflags (fst r) ++ o)
+    | SValidate data tol pre :: rest =>
+        let n' := if pre then set_all_training true n else n in
+        do r <- validate seq_pmap n' (map fst data) (map snd data) tol;
+        do o <- run_script (fst r) rest;
+        Ok ([efl (fst (snd r)); efl (snd (snd r))] ++ eflags (fst r) ++ o)
+    | SPredictBatch xs :: rest =>
+        do ys <- predict_batch seq_pmap n xs; do o <- run_script n rest; Ok (elist etensor ys ++ o)
+    end.
+
   Definition run_net_cmd (n : network NF) : parser (list Z) :=
     let* cmd := tok in
     match cmd with
@@ -353,6 +402,7 @@ Section Driver.
             pret (eres (fun r : network NF * history NF => ehist (snd r) ++ eweights (fst r))
                        (do r1 <- learn seq_pmap n (map fst data) (map snd data) None batch e1;
                         learn seq_pmap (fst r1) (map fst data) (map snd data) None batch e2))
+    | 12 => let* ops := plist psop in pret (eres (fun o => o) (run_script n ops))
     | 11 => let* data := ppairs in let* v := ppairs in let* th := tok in let* batch := pnat in
             let* e1 := tok in let* e2 := tok in
             (* two consecutive calls of learn WITH validation data: the second call starts its own epoch
